@@ -122,8 +122,13 @@ class AmpLookupFunction(ComplexFormatFunction):
             theta: numpy.ndarray,
             slice0: Tuple[slice, ...],
             slice1: Tuple[slice, ...]) -> None:
-        magnitude = numpy.digitize(
-            numpy.round(magnitude.ravel()), self.magnitude_lookup_table, right=False).reshape(data.shape)
+        # find the index of the nearest entry of the (non-decreasing) lookup table
+        table = self.magnitude_lookup_table
+        mag = magnitude.ravel()
+        ind = numpy.clip(numpy.searchsorted(table, mag, side='left'), 1, table.size - 1)
+        # NB: table[ind-1] < mag <= table[ind], except at the ends
+        ind = numpy.where(mag - table[ind - 1] <= table[ind] - mag, ind - 1, ind)
+        magnitude = numpy.reshape(ind, magnitude.shape)
 
         ComplexFormatFunction._reverse_magnitude_theta(self, data, out, magnitude, theta, slice0, slice1)
 
